@@ -280,6 +280,11 @@ def run(cx, chk):
     chk.assumptions = ["user hooks are side-effect free (stated in the property)",
                        "the rule is not part of a left-recursive cycle (stated in the property)"]
     check_key_runtime(cx, chk)
+    # cache_key is start_index; that it is the absolute offset of the remaining input rests on the cursor invariant (shared with C04)
+    from . import c04
+    c04.check_cursor(cx, chk, cx.runtime, "runtime")
+    if "C04.cursor" in chk.rules:
+        chk.rules["C05.key.cursor"] = chk.rules.pop("C04.cursor")
     check_state_origin(cx, chk)
     check_global_state(cx, chk)
     check_wrappers(cx, chk)
